@@ -199,7 +199,7 @@ Definition record_end : M unit :=
 
 Definition origin_block_parser (len : Z) : M (list byte) :=
   if len <? 0 then fail EOther else
-  r <-- try (request (go_toOriginLength len)) ;;;
+  r <-- try (request_z (go_toOriginLength len)) ;;;
   match r with
   | (None, _) => fail EOther
   | (Some _, _) =>
